@@ -7,7 +7,7 @@ into the real TrackStore by `vh replay store` for several shard counts.
 """
 import vlib
 from vlib import SPEC
-MANIFEST = {'level': 'model_checking', 'design': '3 (C09)', 'technique': 'TLA+ spec (TrackStore.tla) model-checked with TLC; every TLC-enumerated behaviour replayed into the real TrackStore', 'text': 'TLC explores the complete state graph of a reduced store instance (invariants, merge frame assertions, reachability witnesses) and enumerates every operation sequence of depth 2 from the empty store and from a store that already holds two tracks (thorough: depth 3, 300-step simulations) over the API alphabet; each behaviour is replayed into the real sharded store for several shard counts and every return value / projected store state is compared with the value TLC computed from the specification.', 'note': 'Trusted: TLC, the harness doubles (attributes/metric/notifier) implement what Track.tla models; ids/classes/values from a small alphabet; error variants are not distinguished.'}
+MANIFEST = {'level': 'model_checking', 'design': '3 (C09)', 'technique': 'TLA+ spec (TrackStore.tla) model-checked with TLC; every TLC-enumerated behaviour replayed into the real TrackStore', 'text': 'TLC explores the complete state graph of a reduced store instance (invariants, merge frame assertions, reachability witnesses) and enumerates every operation sequence of depth 2 from the empty store and from a store that already holds two tracks (thorough: depth 3, 300-step simulations) over the API alphabet; each behaviour is replayed into the real sharded store for several shard counts and every return value / projected store state is compared with the value TLC computed from the specification. While a non-blocking merge is in flight (the optimise callback of the doubles lingers) the stored tracks are counted: the store is the same map in the middle of the merge as before it.', 'note': 'Trusted: TLC, the harness doubles (attributes/metric/notifier) implement what Track.tla models; ids/classes/values from a small alphabet; error variants are not distinguished.'}
 LEVEL = "model_checking"
 S = SPEC / "store"
 RULE = ("behaviours = all operation sequences of length D over the GenTS alphabet (ids {1,2}(,3), an external id, "
